@@ -206,8 +206,57 @@ def ctor(cls, first, args, defaults):
     return cls(*(list(first) + args))
 
 
+CHORD_PCS = ['C', 'C#', 'D', 'Eb', 'E', 'F', 'F#', 'G', 'Ab', 'A', 'Bb', 'B']     # the documented class order (docstrings)
+
+
+def chord_canon(which):
+    """class index -> canonical figure, written down from the class docstrings: 0 no chord, 1-12 major, 13-24 minor,
+    (triad encoding only) 25-36 augmented, 37-48 diminished"""
+    out = ['N.C.'] + CHORD_PCS + [x + 'm' for x in CHORD_PCS]
+    return out + ([x + 'aug' for x in CHORD_PCS] + [x + 'dim' for x in CHORD_PCS] if which == 'triad' else [])
+
+
+def chord_tab(which):
+    """the shipped chord one-hot encodings as an instance of the table model: events are the class numbers 0..n-1 standing
+    for the canonical figures, so for the MODEL the encoding is the identity table ['tab', n, 0, [1]*n, [0..n-1]] while the
+    REAL object delegates every encode_event / decode_event to the real MajorMinor / Triad encoding.  A chord encoding whose
+    decode_event no longer inverts encode_event on some class (seed C08-18: label 12 decoded to 'Bm') then shows in every
+    sequence encoder built on it."""
+    from note_seq import chords_encoder_decoder as ced
+    ed = _mods()[0]
+    canon = chord_canon(which)
+    real = ced.MajorMinorChordOneHotEncoding() if which == 'majmin' else ced.TriadChordOneHotEncoding()
+
+    class ChordTab(ed.OneHotEncoding):
+        @property
+        def num_classes(self):
+            return real.num_classes
+
+        @property
+        def default_event(self):
+            return canon.index(real.default_event)
+
+        def encode_event(self, event):
+            if isinstance(event, bool) or not isinstance(event, int) or not 0 <= event < len(canon):
+                raise ValueError('bad event %r' % (event,))
+            return real.encode_event(fresh_copy(canon[event]))
+
+        def decode_event(self, index):
+            if isinstance(index, bool) or not 0 <= index < len(canon):
+                raise ValueError('bad index %r' % (index,))
+            return canon.index(real.decode_event(index))
+    return ChordTab()
+
+
+def fresh_copy(s):
+    """an equal but not identical string (no interning): `is` tests against module constants must not pass by accident"""
+    return ''.join(list(s))
+
+
 def make_onehot(spec):
     ed, med, pl, ped, pred = _mods()
+    if spec[0] == 'tab' and len(spec) > 5:
+        return chord_tab(spec[5])
     if spec[0] == 'tab':
         return tab_class()(spec[1], spec[2], spec[3], spec[4])
     if spec[0] == 'mel':
@@ -661,6 +710,13 @@ def rand_len(rng):
 
 def rand_onehot(rng):
     k = rng.random()
+    if k < 0.12:
+        which = rng.choice(['majmin', 'triad'])
+        n = 25 if which == 'majmin' else 49
+        oh = ['tab', n, 0, [1] * n, list(range(n)), which]
+        # alphabet: no chord, both ends of every block of twelve (C and B of each quality) and a few others
+        alpha = sorted(set([0] + [b + o for b in range(1, n, 12) for o in (0, 11)] + rng.sample(range(n), 4)))
+        return oh, alpha, 0
     if k < 0.45:
         n = rng.choice([1, 2, 3, 3, 4, 6])
         perm = list(range(n))
@@ -1432,7 +1488,7 @@ def malformed_requests(rng):
         if kind[0] == 'lb' and rng.random() < 0.5:
             kind = ['lb', [rng.choice([0, -1, -2, 1, 2, 3]) for _ in range(rng.choice([1, 2, 3]))], rng.choice([-1, 0, 2])]
         if oh[0] == 'tab' and rng.random() < 0.3:
-            oh = list(oh)
+            oh = list(oh)[:5]        # (a chord table becomes a plain table: the real chord encodings have no table to corrupt)
             oh[4] = [rng.randrange(-oh[1], oh[1] + 2) for _ in range(oh[1])]     # not a permutation / out of range
         ds = kind[1] if kind[0] == 'lb' else []
         n = rng.choice([0, 1, 2, 4, 9])
